@@ -1236,6 +1236,9 @@ func (fr *Frame) atMapUpdateAsserts(ins *ssa.MapUpdate, k, v Term, st *State) {
 	}
 	vc := fr.vc
 	for _, at := range fr.spec.Ats {
+		if at.Clause == nil && at.Ghost == nil {
+			continue
+		}
 		if !strings.HasPrefix(at.Callee, "mapupdate:") {
 			continue
 		}
